@@ -87,6 +87,9 @@ type GenSpec struct {
 	// Canon is the canonical pattern list of the current input version (for the reference
 	// model); default: the world's patterns.
 	Canon []string `json:"canon,omitempty"`
+	// Expect is what the history's generator knows about the outcome from the spec alone:
+	// "fail" (some selected converter is defective), "ok", "help", "usage", "version" or "".
+	Expect string `json:"expect,omitempty"`
 	// Argv, when non-nil, is the raw argument vector after the program name.
 	Argv []string      `json:"argv,omitempty"`
 	Plan verifsim.Plan `json:"plan"`
